@@ -14,7 +14,9 @@ from .util import Z, alleq
 def model_args(model, args):
     out = []
     for a in args:
-        if isinstance(a, np.ndarray):
+        if isinstance(a, np.ndarray) and a.dtype != object:
+            out.append(a)
+        elif isinstance(a, np.ndarray):
             out.append(E.model_array(model, a))
         elif isinstance(a, S.Sym):
             out.append(E.model_value(model, a.z))
@@ -44,7 +46,9 @@ def replay_functional(modname, fname, args, spec, tol=1e-8, checker_mod="pv.natl
         info = dict(checker="pv.natlib:call_fn", inputs=dict(module=modname, func=fname, args=[enc(a) for a in fargs]),
                     expected=flatten_vals(exp), observed=res)
         if not res.get("ok"):
-            info["what"] = f"real {fname} raised {res.get('exc')}"
+            info["what"] = f"real {fname} raised {res.get('exc')}: {res.get('msg', '')[:120]}"
+            if res.get("exc") in ("TypingError", "TypeError", "UnsupportedError", "LoweringError"):
+                return False, info  # the harness called the compiled function with wrong types: not evidence about the code
             return True, info
         got = np.array(flatten_vals(_tonp(res["value"])), dtype=float)
         want = np.array(flatten_vals(exp), dtype=float)
@@ -76,7 +80,7 @@ def prove_entries(run, name, function, hyps, got, want, replay=None, group=True,
     goals = [E.eq_cleared(a, b) for a, b in zip(zg.flat, zw.flat)]
     if group:
         return run.prove(name, function, hyps, z3.And(*goals) if len(goals) > 1 else goals[0], replay=replay, kind=kind,
-                         detail=f"{name}: {len(goals)} entries, e.g. {str(goals[0])[:160]}")
+                         detail=f"{name}: {len(goals)} entries, e.g. {E.brief(goals[0], 160)}")
     st = "proved"
     for ix, gl in zip(np.ndindex(*zg.shape), goals):
         s = run.prove(f"{name}{list(ix)}", function, hyps, gl, replay=replay, kind=kind)
@@ -90,7 +94,7 @@ def discharge_safety(run, prefix, function, hyps, path, replay=None):
     ok = True
     for k, o in enumerate(path.oblig):
         st = run.prove(f"{prefix}/safety.{o.name}#{k}", function, list(hyps) + list(o.pc), o.goal, replay=replay, kind="safety",
-                       detail=f"{o.meta.get('what', o.name)}: {str(o.goal)[:200]}")
+                       detail=f"{o.meta.get('what', o.name)}: {E.brief(o.goal, 200)}")
         ok = ok and st == "proved"
     return ok
 
@@ -136,7 +140,7 @@ def functional(run, name, modname, fname, g, mkargs, spec, hyps=(), tol=1e-8, al
         want, spec_obl, spec_facts = eval_spec(spec, args, H)
         for k, o in enumerate(spec_obl):  # the contract value must be defined wherever the code returns
             run.prove(f"{tag}/spec-defined.{o.name}#{k}", function, H + list(o.pc), o.goal, replay=rp, kind="safety",
-                      detail=f"contract value defined: {str(o.goal)[:160]}")
+                      detail=f"contract value defined: {E.brief(o.goal, 160)}")
         prove_entries(run, tag, function, H + spec_facts, _pack(p.value), _pack(want), replay=rp, group=group)
     return ex
 
